@@ -14,7 +14,7 @@ import (
 func init() {
 	Register(&Property{
 		ID:    "C13",
-		Floor: 50,
+		Floor: 68,
 		Clauses: "RFC 9218 scheduler structure: PriorityParam.urgency/incremental are assigned field-wise only in defaultRFC9218Priority (constants 3, 0/1) and parseRFC9218Priority (u stored only under 0 <= u <= 7, i only as 0/1), " +
 			"so heads[u][i] is always addressed inside [8][2]; an unparsable priority falls back to the default; " +
 			"OpenStream files the queue under heads[u][i] of the same PriorityParam it records in streams[id] (appending at the ring tail, or as sole member of an empty ring) and consumes a buffered PRIORITY_UPDATE only when its stream id matches; " +
